@@ -40,6 +40,9 @@ HEADER = ("From Coq Require Import List ZArith Arith. Import ListNotations.\n"
           "Require Import NV.C21.Model NV.C21.ModelVI.\n")
 
 
+HEADER_ZIP = ("From Coq Require Import List ZArith Arith. Import ListNotations.\n"
+              "Require Import NV.C21.ModelZip.\n")
+
 PID = os.getpid()
 
 
@@ -933,6 +936,43 @@ class C21(C.Check):
             plain.append([vi_obs_plain(o) for o in out])
         return C.eval_cases(self.prop, name, HEADER, checks), plain
 
+    def check_zip(self, ctx, name):
+        """nifty/re/evi.py:concatenate_zip on generated arrays vs coq/C21/ModelZip.v (czip, sgns)."""
+        import jax.numpy as jnp
+        from jax import random
+        from nifty.re.evi import concatenate_zip
+        rng = ctx.rng(24)
+        zl = lambda l: C.clist(["(%d)%%Z" % int(x) for x in l])
+        enc = lambda a: [int(r[0]) * 2**32 + int(r[1]) for r in np.asarray(a, dtype=np.uint32).reshape(-1, 2)]
+        checks, cases = [], []
+        for i in range(12 if ctx.quick else 60):
+            n = int(rng.integers(1, 7))
+            kind = ["int1d", "keys", "sgn", "keys_self"][i % 4]
+            try:
+                if kind == "int1d":
+                    a = rng.integers(-50, 50, size=n)
+                    b = rng.integers(-50, 50, size=n)
+                    r = np.asarray(concatenate_zip(jnp.asarray(a), jnp.asarray(b)))
+                    ok = r.shape == (2 * n,)
+                    checks.append("czip_ok %s %s %s" % (zl(a), zl(b), zl(r.reshape(-1))) if ok else "false")
+                elif kind in ("keys", "keys_self"):
+                    sd = int(rng.integers(0, 1000))
+                    ka = random.split(random.PRNGKey(sd), n)
+                    kb = ka if kind == "keys_self" else random.split(random.PRNGKey(sd + 1), n)
+                    r = np.asarray(concatenate_zip(*((ka,) * 2)) if kind == "keys_self" else concatenate_zip(ka, kb))
+                    ok = r.shape == (2 * n, 2)
+                    checks.append("czip_ok %s %s %s" % (zl(enc(ka)), zl(enc(kb)), zl(enc(r))) if ok else "false")
+                else:
+                    sgn = jnp.ones(n)
+                    r = np.asarray(concatenate_zip(sgn, -sgn))
+                    ok = r.shape == (2 * n,) and bool(np.all(r == np.round(r)))
+                    checks.append("sgns_ok %d %s" % (n, zl(r)) if ok else "false")
+                cases.append({"kind": kind, "n": n, "result": np.asarray(r).tolist()})
+            except Exception as e:                      # the real function failing is a disagreement
+                checks.append("false")
+                cases.append({"kind": kind, "n": n, "error": repr(e)[:200]})
+        return C.eval_cases(self.prop, name, HEADER_ZIP, checks), cases
+
     def correspondence(self, ctx, res):
         self.procs = start_runs(ctx, runs_spec(ctx), scratch("main"))      # runs while coqc works
         t0 = time.time()
@@ -959,6 +999,12 @@ class C21(C.Check):
             res.add_broken("correspondence", "OptimizeVI.update key schedule vs coq/C21/ModelVI.v",
                            {"case_kind": "vi", "case": vcases[i], "observed": plain[i]})
 
+        zbad, zcases = self.check_zip(ctx, scratch("zip"))
+        for i in zbad[:3]:
+            res.add_broken("correspondence", "nifty/re/evi.py:concatenate_zip vs coq/C21/ModelZip.v",
+                           {"case_kind": "zip", "case": zcases[i]})
+        res.notes.append("concatenate_zip correspondence: %d cases, %d disagreements" % (len(zcases), len(zbad)))
+
         res.notes.append("timing: program correspondence %.1fs, VI key correspondence %.1fs" % (t1 - t0, time.time() - t1))
 
         def nontrivial(c):
@@ -979,8 +1025,8 @@ class C21(C.Check):
             "input_distribution": {"programs": len(cases), "statements_observed": nstm,
                                    "statements_ending_in_exception": nexc,
                                    "draws_replayed": sum(len(d) for _, d in obs_all),
-                                   "vi_schedules": len(vcases), "corpus": len(corpus)},
-            "disagreements": len(bad) + len(vbad),
+                                   "vi_schedules": len(vcases), "concatenate_zip_cases": len(zcases), "corpus": len(corpus)},
+            "disagreements": len(bad) + len(vbad) + len(zbad),
             "exhaustive": False,
         })
         return {"bad": [cases[i] for i, _ in bad], "vbad": [vcases[i] for i in vbad]}
